@@ -132,7 +132,7 @@ func runRetCase(c *h.Ctx, r *h.Report, cs retCase) {
 }
 
 func runRetention(c *h.Ctx, r *h.Report) {
-	r.Rule = "publish histories on a real BoltTransport: size in {0,1,2,3,5,50}, cleanup frequency in {0, 0.25, 0.5, 1} (the coin is the runtime's: the model runs as an acceptor — after every publish the bucket's sequence numbers, read back through a white-box accessor, must be one of the two outcomes 'cleanup ran' / 'cleanup skipped'), 5-120 publishes, payloads up to 8 KiB so keys span several B-tree pages, close+reopen in between, publications whose write transaction fails (oversized id) interleaved. The property's oracle (contiguous suffix ending at the last sequence, at least min(n,size) kept, exactly that many when cleanup always runs, size 0 keeps all) is evaluated on the implementation alone. Non-trivial = history in which one cleanup removed two or more keys; distinct by content."
+	r.Rule = "publish histories on a real BoltTransport: size in {0,1,2,3,5,50} and, in one case out of eight, around the limits of the integer types (2^31-1 … 2^64-1), cleanup frequency in {0, 0.25, 0.5, 1} (the coin is the runtime's: the model runs as an acceptor — after every publish the bucket's sequence numbers, read back through a white-box accessor, must be one of the two outcomes 'cleanup ran' / 'cleanup skipped'), 5-120 publishes, payloads up to 8 KiB so keys span several B-tree pages, close+reopen in between, publications whose write transaction fails (oversized id) interleaved. The property's oracle (contiguous suffix ending at the last sequence, at least min(n,size) kept, exactly that many when cleanup always runs, size 0 keeps all) is evaluated on the implementation alone. Non-trivial = history in which one cleanup removed two or more keys; distinct by content."
 	if c.Replay != "" {
 		var rp struct {
 			Case retCase `json:"case"`
@@ -144,10 +144,13 @@ func runRetention(c *h.Ctx, r *h.Report) {
 	}
 	// corpus first
 	runRetCase(c, r, retCase{Size: 3, Freq: 0.5, Payloads: make([]int, 40)})
-	n := c.Scale(150, 4000)
+	n := c.Scale(300, 4000)
 	for i := 0; i < n; i++ {
 		rr := c.Rand.Fork()
 		cs := retCase{Size: h.Pick(rr, []uint64{0, 1, 2, 3, 5, 50}), Freq: h.Pick(rr, []float64{0, 0.25, 0.5, 0.5, 0.25, 1})}
+		if rr.Chance(1, 8) { // sizes around the limits of the integer types: "for all sizes"
+			cs.Size = h.Pick(rr, []uint64{1<<31 - 1, 1 << 31, 1 << 32, 1<<63 - 1, 1 << 63, 1<<63 + 999, 1<<64 - 1})
+		}
 		np := 5 + rr.Intn(60)
 		if cs.Size == 50 {
 			np += 60
